@@ -144,7 +144,15 @@ def physical_diff(mjm, a, b, xpos):
       kind = "missing-pair"
       expl = all(any({int(mjm.pair_geom1[i]), int(mjm.pair_geom2[i])} == set(p) for i in range(mjm.npair)) for p in missing)
       tn = {_col.GEOM_NAMES[int(mjm.geom_type[g])] for p in missing for g in p}
-      kind += ":explicit-pair" if expl else (":plane" if "plane" in tn else (":hfield" if "hfield" in tn else ""))
+      if expl:
+        # the known mechanism needs the pair's own margin+gap to exceed what the filters use (the geoms' margin+gap)
+        def wider(p):
+          i = [i for i in range(mjm.npair) if {int(mjm.pair_geom1[i]), int(mjm.pair_geom2[i])} == set(p)][0]
+          return float(mjm.pair_margin[i] + mjm.pair_gap[i]) > float(mjm.geom_margin[list(p)].sum() + mjm.geom_gap[list(p)].sum())
+
+        kind += ":explicit-pair-margin" if all(wider(p) for p in missing) else ":explicit-pair"
+      else:
+        kind += ":plane" if "plane" in tn else (":hfield" if "hfield" in tn else "")
     else:
       kind = "extra-pair"
     return kind, f"missing pairs {missing[:4]}, extra pairs {extra[:4]}"
@@ -158,7 +166,7 @@ def physical_diff(mjm, a, b, xpos):
       if float(a["dist"][ai]) < -0.5 * min(_col.minsize(mjm, key[0]), _col.minsize(mjm, key[1])):
         continue  # deep penetration: the convex solver's answer depends on which geom plays which role
       if abs(float(a["dist"][ai]) - float(b["dist"][bj])) > 1e-4 + 0.03 * abs(float(a["dist"][ai])) or (np.abs(a["_n"][ai] - b["_n"][bj]).max() > 2e-2 and abs(float(a["dist"][ai])) > 1e-5 and not coincident):
-        return "contact-geometry", f"swapped pair {key}: deepest contact differs (dist {a['dist'][ai]} vs {b['dist'][bj]}, normal {a['_n'][ai]} vs {b['_n'][bj]})"
+        return "swapped-pair-contact-differs", f"swapped pair {key}: deepest contact differs (dist {a['dist'][ai]} vs {b['dist'][bj]}, normal {a['_n'][ai]} vs {b['_n'][bj]})"
       continue
     if len(ia) != len(ib):
       return "contact-count", f"pair {key}: {len(ib)} contacts vs {len(ia)}"
@@ -264,10 +272,8 @@ def run_case(case):
           swapped.setdefault((bp, mask), (w, detail))
         else:
           bad.setdefault((bp, mask), (w, kind, detail))
-  for table, is_swap in ((bad, False), (swapped, True)):
-    if not table:
-      continue
-    # attribute: a broadphase type alone, one filter bit alone, or only a combination
+  def culprit_of(table):
+    """A broadphase type alone, one filter bit alone, or only a combination; plus a representative configuration."""
     culprit = None
     if (1, 0) in table and (2, 0) in table:
       culprit = "SAP"
@@ -287,20 +293,34 @@ def run_case(case):
       if (culprit in (BP.get(k[0]), "SAP") and k[0] > 0 and k[1] == 0) or (culprit.startswith("filter-") and BITS.get(k[1]) == culprit[7:]):
         key = k
         break
-    if is_swap:
-      w, detail = table[key]
-      rec.viol(
-        f"{culprit}:geom-order-swapped",
-        f"world {w} under broadphase {BP[key[0]]} filter mask {key[1]}: same physical contacts as NXN/no-filter but contact.geom order (and normal sign) reversed for "
-        f"same-type pairs {detail[:6]}; {len(table)} of 47 configurations affected",
-      )
-    else:
-      w, kind, detail = table[key]
-      rec.viol(
-        f"{culprit}:{kind}",
-        f"contacts of world {w} under broadphase {BP[key[0]]} filter mask {key[1]} differ from NXN/no-filter: {detail}; {len(table)} of 47 configurations differ: {sorted(table)[:8]}",
-        configs=[list(k) for k in sorted(table)],
-      )
+    return culprit, key
+
+  if swapped:
+    culprit, key = culprit_of(swapped)
+    if all(k[0] > 0 for k in swapped):
+      culprit = "SAP"  # only the sweep-and-prune broadphases emit pairs in projection order
+    w, detail = swapped[key]
+    rec.viol(
+      f"{culprit}:geom-order-swapped",
+      f"world {w} under broadphase {BP[key[0]]} filter mask {key[1]}: same physical contacts as NXN/no-filter but contact.geom order (and normal sign) reversed for "
+      f"same-type pairs {detail[:6]}; {len(swapped)} of 47 configurations affected",
+    )
+  kinds = {}
+  for k, v in bad.items():
+    kinds.setdefault(v[1], {})[k] = v
+  for kind, table in sorted(kinds.items()):
+    culprit, key = culprit_of(table)
+    if kind == "swapped-pair-contact-differs" and all(k[0] > 0 for k in table):
+      culprit = "SAP"
+    sig = f"{culprit}:{kind}"
+    if kind == "missing-pair:explicit-pair-margin" and culprit.startswith("filter-"):
+      sig = "filter:missing-pair:explicit-pair-margin"  # all four bounding-volume filters use the geoms' margin+gap
+    w, _, detail = table[key]
+    rec.viol(
+      sig,
+      f"contacts of world {w} under broadphase {BP[key[0]]} filter mask {key[1]} differ from NXN/no-filter: {detail}; {len(table)} of 47 configurations differ: {sorted(table)[:8]}",
+      configs=[list(k) for k in sorted(table)],
+    )
   for f in feats:
     rec.cover("features", f)
   rec.cover(f"nworld:{nworld}", 1)
